@@ -490,7 +490,7 @@ func RunSim(c SimCase) (res stats.Result) {
 	}
 	nComp := int64(len(b.comps) + 1 + len(b.gpus) + len(b.sms)) // + connections
 	guard = &eventGuard{
-		// a complete run of the slowest case in the domain needs < 1000 events per component (measured, see NOTES.md),
+		// a complete run of the slowest case in the domain needs 2073 events per component, 12.4 k in total (measured, see NOTES.md),
 		// and between two progress steps only a handful of cycles pass. One period is >= 5000 ticks of every component
 		// during which not a single counter moved.
 		period: 200000 + 5000*nComp,
